@@ -499,6 +499,11 @@ class Evaluator:
                     return self._bool_from(Test('opaque', key=f'{o.path} == {c.value!r}'), neg)
                 if isinstance(o, (Scalar, EnumVal, Inst, Tup, Lst)):
                     return Const(neg)
+        if isinstance(op, (ast.Eq, ast.NotEq)) and (isinstance(l, (Tup, Lst, DictVal)) or isinstance(r, (Tup, Lst, DictVal))):
+            # structural equality of containers with unknown parts: an opaque test
+            if isinstance(l, Tup) and isinstance(r, Tup) and len(l.items) != len(r.items):
+                return Const(isinstance(op, ast.NotEq))
+            return self._bool_from(Test('opaque', key=f'{self.describe(l)} == {self.describe(r)}'), isinstance(op, ast.NotEq))
         # an unknown member of a known finite set against a number: decided when every member agrees
         for sym, other, flip in ((l, r, False), (r, l, True)):
             if isinstance(sym, SymObj) and sym.domain and isinstance(other, (Scalar, EnumVal)):
@@ -996,6 +1001,11 @@ class Evaluator:
             return FuncRef(None, self_val=base, lam=('strmethod', attr))
         if isinstance(base, Tup):
             raise Undecided(f'tuple attribute {attr}')
+        if isinstance(base, Scalar):
+            at = base.rf.as_atom()
+            if at is not None and at.kind == 'sym' and at.name.startswith('$'):
+                # a name the rule bound as an unknown number is used as an object: an unknown object
+                return SymObj(f'{at.name[1:]}.{attr}')
         raise Undecided(f'attribute {attr} on {base!r}')
 
     def attr_class(self, ci: ClassInfo, attr: str) -> Optional[ClassInfo]:
@@ -1202,6 +1212,9 @@ class Evaluator:
                 return Tup([Tup([Const(k[1]) if k[0] == 'c' else Const(str(k)), v]) for k, v in base.items.items()])
             if name == 'copy' and not args:
                 return DictVal(dict(base.items))
+            if name == 'clear' and not args:
+                base.items.clear()
+                return NONE
             if name == 'update' and len(args) <= 1:
                 # in-place: the value object is shared by every alias of the dict (straight-line use only)
                 if args:
@@ -1434,6 +1447,8 @@ class Evaluator:
                         return Scalar(len(its))
                     if isinstance(x, SymObj):
                         return Scalar(A.sym(f'len({x.path})'))
+                    if isinstance(x, DictVal):
+                        return Scalar(len(x.items))
                     raise Undecided('len')
                 return self.lift(_len, args[0])
             if name == 'bool':
@@ -1486,6 +1501,8 @@ class Evaluator:
                 return Const('<str>')
             if name == 'print':
                 return NONE
+            if name == 'id' and len(args) == 1:
+                return Scalar(A.sym(f'id({self.describe(args[0])})'))
         if (mod or '').startswith('logging') or 'logger' in (mod or ''):
             return ExtRef('logging', '<object>')        # loggers, handlers: calls on them have no value we use
         if mod == 'warnings':
@@ -1628,6 +1645,9 @@ class Evaluator:
                 st.heap[base.oid]['$items'][int(self.scalar(idx).const_value())] = v
             elif isinstance(base, SymObj):
                 st.env[f'$store:{base.path}[{self.describe(idx)}]'] = v
+            elif isinstance(base, DictVal):
+                k = self.dict_key(idx)
+                base.items[k if k is not None else ('s', self.describe(idx))] = v
             else:
                 raise Undecided('subscript store')
         else:
